@@ -1850,6 +1850,7 @@ class LeCreditBasedChannel(utils.EventEmitter):
             self.destination_cid = response.destination_cid
             self.peer_mtu = response.mtu
             self.peer_mps = response.mps
+            self.att_mtu = min(self.mtu, self.peer_mtu)
             self.credits = response.initial_credits
             self.connected = True
             self.connection_result.set_result(self)
@@ -1878,6 +1879,7 @@ class LeCreditBasedChannel(utils.EventEmitter):
             self.destination_cid = destination_cid
             self.peer_mtu = response.mtu
             self.peer_mps = response.mps
+            self.att_mtu = min(self.mtu, self.peer_mtu)
             self.credits = response.initial_credits
             self.connected = True
             self._change_state(self.State.CONNECTED)
